@@ -118,7 +118,7 @@ pub fn run(ctx: &Ctx, rep: &mut Report) {
     let mut cfgs = lattice_systematic(max_mn, max_ncap, false);
     let nrand = if ctx.thorough() { 200 } else { 16 };
     cfgs.extend(lattice_random(&mut ctx.rng(&format!("c04-lattice-{GROUP}"), 0), nrand, max_mn, max_ncap));
-    let reps = if ctx.thorough() { 4 } else { 1 };
+    let reps = if ctx.thorough() { 12 } else { 1 };
     let mut id = 0usize;
     for (k, cfg) in cfgs.iter().enumerate() {
         for r in 0..reps {
@@ -128,7 +128,7 @@ pub fn run(ctx: &Ctx, rep: &mut Report) {
             }
         }
     }
-    let nb = if ctx.thorough() { 400 } else { 48 };
+    let nb = if ctx.thorough() { 3000 } else { 48 };
     for b in 0..nb {
         id += 1;
         if ctx.mine(id) {
